@@ -36,8 +36,27 @@ class ELN(Normaliser):
         self.positive_atoms = set()
 
     # ---------------------------------------------------------------- rf helpers
+    def content(self, n, d):
+        """divide numerator and denominator by the common scalar content (keeps coefficients small)"""
+        from math import gcd
+        if not n or is_const(d):
+            return (n, d)
+        cs = list(n.values()) + list(d.values())
+        den_lcm = 1
+        for c in cs:
+            den_lcm = den_lcm * c.denominator // gcd(den_lcm, c.denominator)
+        ints = [int(c * den_lcm) for c in cs]
+        g = 0
+        for v in ints:
+            g = gcd(g, abs(v))
+        if g in (0, 1) and den_lcm == 1:
+            return (n, d)
+        f = Fraction(den_lcm, g or 1)
+        return ({m: c * f for m, c in n.items()}, {m: c * f for m, c in d.items()})
+
     def rmul(self, a, b):
-        return self.cancel(pmul(a[0], b[0]), pmul(a[1], b[1]))
+        n, d = self.cancel(pmul(a[0], b[0]), pmul(a[1], b[1]))
+        return self.content(n, d)
 
     def rinv(self, a):
         if not a[0]:
@@ -54,7 +73,11 @@ class ELN(Normaliser):
     def radd(self, a, b, s=1):
         if a[1] == b[1]:
             return (padd(a[0], b[0], s), a[1])
-        return (padd(pmul(a[0], b[1]), pmul(b[0], a[1]), s), pmul(a[1], b[1]))
+        if not a[0]:
+            return (b[0] if s == 1 else {m: -c for m, c in b[0].items()}, b[1])
+        if not b[0]:
+            return a
+        return self.content(padd(pmul(a[0], b[1]), pmul(b[0], a[1]), s), pmul(a[1], b[1]))
 
     def rscale(self, a, c: Fraction):
         return ({m: v * c for m, v in a[0].items()}, a[1])
@@ -171,6 +194,8 @@ class ELN(Normaliser):
             if name == 'POW':
                 base = self.norm(t.arg(0))
                 e = self.norm(t.arg(1))
+                if not base[0] and self.sign_of(e) == 1:
+                    return (ZERO, ONE)  # 0 ** (positive exponent) = 0
                 return self.exp_rf(self.rmul(e, self.log_rf(base)))
         if z3.is_app(t) and t.decl().kind() == z3.Z3_OP_ITE:
             c = z3.simplify(t.arg(0))
